@@ -38,6 +38,77 @@ CFG = {"name": "src_add", "params": [("self", "tc"), ("key", "K")], "ret": "tc",
                  "_cur_bucket": ("tc_bucket", "set_bucket", "int"), "_thresh_count": ("tc_w", "set_w", "int")},
        "kinds": {"k": "key", "v": "pairNN"}, "calls": {"sum": ("sum2", "int")}, "shapes": [shape_try_incr]}
 
+# ---- ThresholdCounter.update -----------------------------------------------------------------------
+def _is(node, cls, **kw):
+    return isinstance(node, cls) and all(getattr(node, k, None) == v for k, v in kw.items())
+
+
+def cond_update(T, e, scope):
+    # `iterable is not None`
+    if isinstance(e, ast.Compare) and len(e.ops) == 1 and isinstance(e.ops[0], ast.IsNot) and \
+            _is(e.left, ast.Name, id="iterable") and _is(e.comparators[0], ast.Constant, value=None):
+        return "(negb (src_is_none iterable))"
+    # `callable(iteritems)`
+    if isinstance(e, ast.Call) and _is(e.func, ast.Name, id="callable") and len(e.args) == 1 and not e.keywords and \
+            _is(e.args[0], ast.Name, id="iteritems") and "iteritems" in scope:
+        return "(opt_is_some iteritems)"
+    return None
+
+
+def shape_getattr_items(T, s, probe, scope=None):
+    """iteritems = (getattr(iterable, 'iteritems', None) or getattr(iterable, 'items', None))"""
+    if not (isinstance(s, ast.Assign) and len(s.targets) == 1 and _is(s.targets[0], ast.Name, id="iteritems")):
+        return None
+    v = s.value
+
+    def ga(c, name):
+        return (isinstance(c, ast.Call) and _is(c.func, ast.Name, id="getattr") and len(c.args) == 3 and not c.keywords and
+                _is(c.args[0], ast.Name, id="iterable") and _is(c.args[1], ast.Constant, value=name) and
+                _is(c.args[2], ast.Constant, value=None))
+    if not (isinstance(v, ast.BoolOp) and isinstance(v.op, ast.Or) and len(v.values) == 2 and
+            ga(v.values[0], "iteritems") and ga(v.values[1], "items")):
+        raise py2coq.Unsupported("assignment to iteritems of an unknown shape")
+    if probe:
+        return []
+    scope.add("iteritems")          # bound for the rest of the enclosing block
+    return "let iteritems := src_items_method iterable in\n"
+
+
+def iter_update(T, e, scope):
+    if isinstance(e, ast.Call) and _is(e.func, ast.Name, id="iteritems") and not e.args and not e.keywords and "iteritems" in scope:
+        return "(opt_items iteritems)"                      # for key, count in iteritems()
+    if isinstance(e, ast.Call) and _is(e.func, ast.Name, id="range") and len(e.args) == 1 and _is(e.args[0], ast.Name, id="count"):
+        return "(seq 0 count)"                              # for i in range(count)
+    if _is(e, ast.Name, id="iterable"):
+        return "(src_keys iterable)"                        # for key in iterable
+    return None
+
+
+def render_self_update(T, call, scope):
+    """self.update(kwargs): the positional source is the keyword dict (a mapping), no further keywords"""
+    if len(call.args) != 1 or call.keywords or not _is(call.args[0], ast.Name, id="kwargs"):
+        raise py2coq.Unsupported("recursive call of update of an unknown shape")
+    return "src_update fuel self (SrcMapping kwargs) []"
+
+
+CFG_UPDATE = {"name": "src_update", "params": [("self", "tc"), ("iterable", "upd_src"), ("kwargs", "list (K * nat)")],
+              "kwarg": "kwargs", "ret": "tc", "num": "N", "procedure": True, "recursive_fuel": True,
+              "kinds": {"kwargs": "pairs", "iterable": "src", "count": "nat", "key": "key", "i": "nat"},
+              "truthy": {"pairs": "is_nonempty"}, "self_methods": {"add": "src_add", "update": render_self_update},
+              "conds": [cond_update], "iterables": [iter_update], "shapes": [shape_getattr_items]}
+
+HEADER_UPDATE = """
+(* ---- ThresholdCounter.update(iterable, **kwargs) ----------------------------------------------------
+   The positional argument is None, something with a callable iteritems/items (a mapping: its pairs), or
+   any other iterable (its keys); kwargs is the keyword dictionary (key -> count).  Recursion on fuel. *)
+Inductive upd_src := SrcNone | SrcMapping (kcs : list (K * nat)) | SrcIterable (ks : list K).
+Definition src_is_none (x : upd_src) : bool := match x with SrcNone => true | _ => false end.
+Definition src_items_method (x : upd_src) : option (list (K * nat)) := match x with SrcMapping m => Some m | _ => None end.
+Definition opt_is_some {A} (o : option A) : bool := match o with Some _ => true | None => false end.
+Definition opt_items (o : option (list (K * nat))) : list (K * nat) := match o with Some m => m | None => [] end.
+Definition src_keys (x : upd_src) : list K := match x with SrcIterable ks => ks | _ => [] end.
+"""
+
 HEADER = """(* GENERATED on every run by harness/translators/c20_src.py from %s
    (ThresholdCounter.add); do not edit.  Integers are N: the only subtraction is _cur_bucket - 1 and
    _cur_bucket >= 1 is an invariant (Proofs.C20_Proofs.inv_bucket). *)
@@ -51,4 +122,5 @@ Definition set_map (s : tc) (m : pydict (N * N)) : tc := mkTC (tc_total s) (tc_b
 
 def generate(repo):
     path = os.path.join(repo, "boltons", "cacheutils.py")
-    return {"C20_Src": HEADER % path + py2coq.translate(path, "ThresholdCounter.add", CFG)}
+    return {"C20_Src": HEADER % path + py2coq.translate(path, "ThresholdCounter.add", CFG) + HEADER_UPDATE +
+            py2coq.translate(path, "ThresholdCounter.update", CFG_UPDATE)}
